@@ -33,7 +33,8 @@ func FormatPageNo(style string, n, total int) string {
 type Doc struct {
 	Pages []Page `json:"pages"`
 
-	Header      string   `json:"header"`                 // none | every | oddeven
+	Header      string   `json:"header"`                 // none | every | oddeven | skipfirst (every page but the first)
+	HeaderRunNo bool     `json:"header_runno,omitempty"` // the header ends in the running page number ("Title 7"): not a repeated line
 	HeaderForm  string   `json:"header_form,omitempty"`  // frag (one fragment per line) | words
 	Footer      string   `json:"footer"`                 // none | every | oddeven
 	FooterForm  string   `json:"footer_form,omitempty"`  // frag | words
@@ -88,7 +89,7 @@ func GenDoc(t *rapid.T, o DocOpts) Doc {
 
 	d := Doc{Header: "none", Footer: "none", PageNo: "none"}
 	if !o.NoRepeat {
-		d.Header = rapid.SampledFrom([]string{"none", "every", "every", "oddeven"}).Draw(t, "header")
+		d.Header = rapid.SampledFrom([]string{"none", "every", "every", "oddeven", "skipfirst"}).Draw(t, "header")
 		d.Footer = rapid.SampledFrom([]string{"none", "none", "every", "oddeven"}).Draw(t, "footer")
 		d.PageNo = rapid.SampledFrom([]string{"none", "fixed", "fixed", "alternate"}).Draw(t, "pageNo")
 	}
@@ -122,6 +123,7 @@ func GenDoc(t *rapid.T, o DocOpts) Doc {
 			hdr[1] = phrase("headerEven", false)
 		}
 	}
+	d.HeaderRunNo = d.Header != "none" && !hdrDigits && pct("headerRunNo", 12)
 	if d.Footer != "none" {
 		d.FooterForm = rapid.SampledFrom([]string{"frag", "frag", "words"}).Draw(t, "footerForm")
 		ftr[0] = phrase("footer", false)
@@ -218,8 +220,17 @@ func GenDoc(t *rapid.T, o DocOpts) Doc {
 			if numEdge == "top" {
 				y = yEdgeTop
 			}
-			// a number of its own on a body line: a year, a table cell, a quantity
+			// a number of its own on a body line: a year, a table cell, a quantity - or body text that happens to
+			// read like a page number ("page 12", "3/4") or like the running header
 			num := strconv.Itoa(rapid.IntRange(1, 2999).Draw(t, "bodyNumber"))
+			switch rapid.SampledFrom([]string{"number", "number", "pattern", "header"}).Draw(t, "bodyEdgeText") {
+			case "pattern":
+				num = FormatPageNo(rapid.SampledFrom(PageNoStyles).Draw(t, "bodyPattern"), rapid.IntRange(1, 300).Draw(t, "bodyPatternNo"), rapid.IntRange(1, 300).Draw(t, "bodyPatternOf"))
+			case "header":
+				if d.Header != "none" {
+					num = strings.Join(hdr[i%2], " ")
+				}
+			}
 			x := mx + float64(rapid.IntRange(0, int(W-2*mx)-40).Draw(t, "bodyNumberX"))
 			add(num, x, y, size, RoleNum)
 		}
@@ -259,7 +270,13 @@ func GenDoc(t *rapid.T, o DocOpts) Doc {
 			if d.Header == "oddeven" && al != "center" && odd == 1 {
 				al = map[string]string{"left": "right", "right": "left"}[al]
 			}
-			madd(hdr[odd], d.HeaderForm, al, topRow(0)+jit, RoleHeader, jit)
+			ws := hdr[odd]
+			if d.HeaderRunNo {
+				ws = append(append([]string{}, ws...), strconv.Itoa(pnStart+i))
+			}
+			if d.Header != "skipfirst" || i > 0 {
+				madd(ws, d.HeaderForm, al, topRow(0)+jit, RoleHeader, jit)
+			}
 		}
 		if d.Footer != "none" {
 			madd(ftr[odd], d.FooterForm, ftrAlign, botRow(0)+jit, RoleFooter, jit)
@@ -366,6 +383,9 @@ func (d Doc) Labels() []string {
 	}
 	if d.Header != "none" {
 		ls = append(ls, "hdrform:"+d.HeaderForm)
+		if d.HeaderRunNo {
+			ls = append(ls, "hdr:running-number")
+		}
 	}
 	for _, f := range d.Feat {
 		ls = append(ls, "feat:"+f)
